@@ -20,7 +20,7 @@ ASSUMPTIONS = ['semantics of declarations as in DESIGN.md Appendix A; any except
                'task\'s own namespace, are outside the generator (don\'t-care zones)']
 BUDGET = {'quick': 60, 'thorough': 1200}
 PROPS = {'C08'}
-FEAT = {'contexts': False, 'global_vars': False, 'objects': False}
+FEAT = {'contexts': False, 'global_vars': False, 'objects': False, 'meta_inheritance_p': 0.35}
 
 
 def redefine_after(lab, ref, spec, root, st, res, witness):
@@ -103,7 +103,7 @@ def run_case(case) -> CaseResult:
         inject = None
         r = rng.random()
         if r < 0.3:
-            inject = rng.choice(['dangling', 'selfloop', 'cycle2', 'cycle3'])
+            inject = rng.choice(['dangling', 'selfloop', 'cycle2', 'cycle3', 'dangling_class'])
         run_build_case(rng, res, PROPS, feat=dict(FEAT, **case.get('feat', {})), inject=inject, parameter_mode=case.get('parameter_mode', True), name_mode_twins=True,
                        after=(seq_after if i % 3 == 0 else redefine_after if i % 3 == 1 else None) if case.get('parameter_mode', True) else None)
         if len(res.violations) > 3:
